@@ -201,7 +201,8 @@ class Alg:
         if not isinstance(t, tuple) or not t:
             return t
         if self.is_setlike(t):
-            return ("sig", self.sig(self.interp(t)))
+            # the set interpretation proper (a subclass may interpret conditions, not sets)
+            return ("sig", self.sig(Alg.interp(self, t)))
         if t[0] == "call" and _last(t[1]) in ITER_ADAPTERS and len(t[2]) == 1:
             return self.canon(t[2][0])
         if t[0] == "loopvar":
